@@ -123,10 +123,10 @@ def build(repo=REPO, verbose=True, keep_bc=True):
     if os.path.exists(meta):
         return d
     os.makedirs(CACHE, exist_ok=True)
-    # prune old cache entries (disk is limited)
-    for old in os.listdir(CACHE):
-        if old != key:
-            shutil.rmtree(os.path.join(CACHE, old), ignore_errors=True)
+    # prune old cache entries (disk is limited): keep the few most recent ones (concurrent runs on scratch trees)
+    olds = sorted((os.path.getmtime(os.path.join(CACHE, o)), o) for o in os.listdir(CACHE) if o != key and not o.startswith('spqa-'))
+    for _, old in olds[:-12] if len(olds) > 12 else []:
+        shutil.rmtree(os.path.join(CACHE, old), ignore_errors=True)
     scratch = tempfile.mkdtemp(prefix='spqa-build-')
     tmpd = tempfile.mkdtemp(prefix='spqa-units-', dir=CACHE)
     try:
